@@ -53,6 +53,10 @@ RULE += (" Added after the white-box review: "
          "default fading generator for the single-user channels, "
          "per-transmitter list signals (multi-user, frequency domain), "
          "carriers counted from the end, path loss as int / float32 ")
+RULE += (" Added after the second white-box review: 15 % of the multi-"
+         "user cases have ONE transmitter and 2..3 receivers (directly or "
+         "after a direction switch) with a 1-D time-domain signal of 2..12 "
+         "samples first (label mu_one_tx_1d_time). ")
 
 LEVEL_TEXT = ("Generated-input search (Hypothesis, seeded, sharded) over tap "
               "profiles, fading generators, antenna set-ups, wrappers and "
@@ -359,8 +363,22 @@ def _mu_case(draw, tier):
         ant = draw(_antennas(tier)) or [2, 1]
     fad = draw(st.one_of(st.fixed_dictionaries(dict(kind=st.just("default"))),
                          _fading()))
+    one_tx = _p(draw, 0.15)
+    if one_tx:
+        # ONE transmitter, two or three receivers (or the reverse followed by
+        # a direction switch), single-antenna links, and the documented 1-D
+        # signal of n >= 2 samples in a time-domain transmission first
+        k = draw(st.sampled_from([2, 2, 3]))
+        rev = draw(st.booleans())
+        n_rx, n_tx = (1, k) if rev else (k, 1)
+        N = [n_rx, n_tx]
+        ant = None
     ops = draw(_history(tier, prof["mem_ub"], True, False,
                         plm=n_rx * n_tx))
+    if one_tx:
+        first = dict(op="time", n=draw(st.integers(2, 12)),
+                     sig=draw(_signal(tier)), oned=True)
+        ops = ([dict(op="switch", v=True)] if rev else []) + [first] + ops
     return dict(part="mu", profile=prof, fading=fad, N=N, ant=ant,
                 pass_Ts=draw(st.booleans()), np_seed=draw(seeds), ops=ops,
                 alpha=draw(_cplx()), beta=draw(_cplx()))
@@ -1058,6 +1076,9 @@ def _check_mu(case, ctx):
             ctx.label("switched_tx")
         if rec["pl"]:
             ctx.label("pathloss_tx")
+        if not mimo and n_txu == 1 and n_rxu >= 2 and \
+                op["op"] == "time" and op.get("oned") and n >= 2:
+            ctx.label("mu_one_tx_1d_time")
         if rec["ny"] != n_rxu:
             raise Violation("mu_num_outputs", "%d outputs for %d receivers" %
                             (rec["ny"], n_rxu), tags)
